@@ -151,7 +151,7 @@ def run(res, b, tier, seed):
                 fails.append((c, "structure: " + pr_, None))
         # the two Lean semantic models of the Batch target (Sem/Src32: meaning of the AST with 32-bit integers, Sem/Cmd: meaning of the
         # emitted lines) next to the 32-bit reference and the cmd model of lib/cmdsim.py on the same programs: the tie of the definitions
-        # the theorem C05.batch_preserves_straight_line_semantics is about
+        # the theorem C05S.batch_preserves_straight_line_semantics_partial is about
         semb = [(c, r) for c, r in zip(runnable, sims) if len(c.files) == 1]
         answers = pipeline.model_lines(b, ["SEMB" + pipeline.parse_request(c)[5:] for c, _ in semb])
         for (c, r), a in zip(semb, answers):
@@ -208,7 +208,7 @@ def run(res, b, tier, seed):
         semantic_models=dict(SEMB, disagreements=len(semdis),
                              rule="the Lean semantic models of the Batch target on the single-file programs of the scalar fragment: Sem/Src32 (meaning of the AST, "
                                   "32-bit) vs the 32-bit reference interpreter, Sem/Cmd (program-counter machine over the emitted lines) vs lib/cmdsim.py on the "
-                                  "rendered script, and Sem/Src32 vs Sem/Cmd (an instance of C05.batch_preserves_straight_line_semantics where the program is "
+                                  "rendered script, and Sem/Src32 vs Sem/Cmd (an instance of C05S.batch_preserves_straight_line_semantics_partial where the program is "
                                   "straight-line)"),
     ))
     res.assumptions += ["no cmd.exe exists in the sandbox: 'cmd.exe's rules' are those of lib/cmdsim.py (DESIGN.md appendix F), calibrated on the suite's expectations",
